@@ -181,13 +181,20 @@ pub fn traits_state_check(h2: &blake3::Hasher, inherent: &blake3::Hasher, offset
             return Some(("traits:Digest::finalize_reset".into(), "result and reset state".into(), "differs".into()));
         }
         // ExtendableOutput + XofReader, read in uneven pieces
-        let mut rd = digest::ExtendableOutput::finalize_xof(h2.clone());
-        let mut got = [0u8; 200];
-        let (p, q) = got.split_at_mut(67);
-        digest::XofReader::read(&mut rd, p);
-        digest::XofReader::read(&mut rd, q);
-        if got != wantx {
-            return Some(("traits:ExtendableOutput::finalize_xof".into(), vcommon::hex(&wantx), vcommon::hex(&got)));
+        // (piece sizes chosen so that whole-block reads start inside a block, at its end and at its start)
+        const PLANS: [&[usize]; 7] = [&[67, 133], &[10, 64, 126], &[1, 128, 64, 7], &[64, 64, 72], &[63, 1, 64, 72], &[200], &[0, 32, 32, 64, 8, 64]];
+        for plan in PLANS {
+            let mut rd = digest::ExtendableOutput::finalize_xof(h2.clone());
+            let mut got = [0u8; 200];
+            let mut at = 0;
+            for &k in plan {
+                digest::XofReader::read(&mut rd, &mut got[at..at + k]);
+                at += k;
+            }
+            debug_assert_eq!(at, 200);
+            if got != wantx {
+                return Some(("traits:ExtendableOutput::finalize_xof".into(), vcommon::hex(&wantx), format!("{} (XofReader::read in pieces {:?})", vcommon::hex(&got), plan)));
+            }
         }
         let mut x = h2.clone();
         let mut rd = digest::ExtendableOutputReset::finalize_xof_reset(&mut x);
